@@ -1133,11 +1133,26 @@ Proof.
   rewrite Hf. cbn [rbind]. exact IH.
 Qed.
 
+(* since the up-front integrality check of the random transfer, the constructor also looks at
+   whether every weight is integral, which is not a function of the electorate [dist_eq] (two
+   half-weight copies of a ballot versus one copy of weight 1): with the random transfer the two
+   profiles must agree on it *)
 Lemma stv_init_anonymous : forall cfg p p', stv_domain p -> stv_domain p' -> profile_equiv p p' ->
+  (s_transfer cfg = TRandom ->
+   forallb (fun b => is_integral (wt b)) (ballots p) =
+   forallb (fun b => is_integral (wt b)) (ballots p')) ->
   stv_init cand cfg p = stv_init cand cfg p'.
 Proof.
-  intros cfg p p' Hd Hd' [Hde Hp]. unfold STV.stv_init.
+  intros cfg p p' Hd Hd' [Hde Hp] Hint. unfold STV.stv_init.
   rewrite (stv_validate_ok p Hd), (stv_validate_ok p' Hd'). cbn [rbind].
+  assert (Hc : is_trandom (s_transfer cfg) &&
+               negb (forallb (fun b => is_integral (wt b)) (ballots p)) =
+               is_trandom (s_transfer cfg) &&
+               negb (forallb (fun b => is_integral (wt b)) (ballots p'))).
+  { destruct (s_transfer cfg); try reflexivity. rewrite (Hint eq_refl). reflexivity. }
+  rewrite Hc.
+  destruct (is_trandom (s_transfer cfg) &&
+            negb (forallb (fun b => is_integral (wt b)) (ballots p'))); [reflexivity|].
   rewrite <- (Permutation_length Hp).
   destruct ((s_m cfg <=? 0)%Z || (Z.of_nat (length (cands p)) <? s_m cfg)%Z); [reflexivity|].
   pose proof (total_wt_anonymous cand ceqb ceqb_spec _ _ Hde) as Ht.
@@ -1213,7 +1228,7 @@ Theorem run_stv_anonymous : forall cfg p p' (s : mstate),
   mres_equiv (Forall2 state_equiv) (run_stv cand ceqb cfg p s) (run_stv cand ceqb cfg p' s).
 Proof.
   intros cfg p p' s Htb Htr Hs Hd Hd' He. apply (mres_at_equiv s).
-  unfold STV.run_stv, mbind, mlift. rewrite (stv_init_anonymous cfg p p' Hd Hd' He).
+  unfold STV.run_stv, mbind, mlift. rewrite (stv_init_anonymous cfg p p' Hd Hd' He (fun H => False_ind _ (Htr H))).
   destruct (stv_init cand cfg p') as [t|e]; [|exact eq_refl]. cbn [ok].
   pose proof (initial_state_anonymous p p' Hd Hd' He) as H0.
   destruct (initial_state cand ceqb p) as [s0|e]; destruct (initial_state cand ceqb p') as [s0'|e'];
